@@ -209,6 +209,8 @@ pub trait VecLike<E: Elem>: Sized {
     fn with_cap(&self, n: usize) -> Self;
     fn from_iter_like(&self, it: Src<E>, how: u8) -> Self;
     fn macro_like(&self, items: Vec<E>) -> Self;
+    /// the `vec![x; n]` form of the container's macro
+    fn repeat_like(&self, e: E, n: usize) -> Self;
     fn sl(&self) -> &[E];
     fn cap(&self) -> usize;
     fn ptr(&self) -> usize;
@@ -255,7 +257,7 @@ pub trait VecLike<E: Elem>: Sized {
 }
 
 macro_rules! impl_veclike {
-    ($ty:ty, $newin:expr, $fresh:expr, $withcap:expr, $fromiter:expr, $macro:expr, $drainfilter:ident, $leak:expr, $boxed:expr, $tryres:expr, $tryresx:expr, $copy:ident, $copies:expr, $write:expr) => {
+    ($ty:ty, $newin:expr, $fresh:expr, $withcap:expr, $fromiter:expr, $macro:expr, $repeat:expr, $drainfilter:ident, $leak:expr, $boxed:expr, $tryres:expr, $tryresx:expr, $copy:ident, $copies:expr, $write:expr) => {
         impl<E: Elem> VecLike<E> for $ty {
             fn new_in_arena(b: &'static Bump, cap: usize) -> Self {
                 $newin(b, cap)
@@ -271,6 +273,9 @@ macro_rules! impl_veclike {
             }
             fn macro_like(&self, items: Vec<E>) -> Self {
                 $macro(self, items)
+            }
+            fn repeat_like(&self, e: E, n: usize) -> Self {
+                $repeat(self, e, n)
             }
             fn sl(&self) -> &[E] {
                 &self[..]
@@ -512,6 +517,10 @@ impl_veclike!(
             _ => bumpalo::vec![in b; x0.unwrap(), x1.unwrap(), x2.unwrap()],
         }
     },
+    |s: &BVec<'static, E>, e: E, n: usize| {
+        let b = b_bump(s);
+        bumpalo::vec![in b; e; n]
+    },
     b_drain_filter,
     |s: BVec<'static, E>, mutable: bool| -> &'static [E] {
         if mutable {
@@ -554,6 +563,7 @@ impl_veclike!(
             _ => vec![it.next().unwrap(), it.next().unwrap(), it.next().unwrap()],
         }
     },
+    |_s: &Vec<E>, e: E, n: usize| vec![e; n],
     s_drain_filter,
     |s: Vec<E>, _mutable: bool| -> &'static [E] { s.leak() },
     |s: Vec<E>, obs: &mut Obs| {
@@ -618,6 +628,11 @@ impl_veclike!(
         unsafe { std::mem::ManuallyDrop::drop(&mut it) };
         v
     },
+    |s: &AVec<E>, e: E, n: usize| {
+        let mut v = allocator_api2::vec::Vec::new_in(*s.allocator());
+        v.resize(n, e);
+        v
+    },
     a_drain_filter,
     |s: AVec<E>, _mutable: bool| -> &'static [E] { s.leak() },
     |s: AVec<E>, obs: &mut Obs| {
@@ -659,6 +674,11 @@ impl_veclike!(
         for x in items {
             v.push(x);
         }
+        v
+    },
+    |_s: &GVec<E>, e: E, n: usize| {
+        let mut v = allocator_api2::vec::Vec::new();
+        v.resize(n, e);
         v
     },
     a_drain_filter,
